@@ -49,6 +49,8 @@ pub struct HistProfile {
     pub set_var: u32,
     pub eval: u32,
     pub observe: u32,
+    /// valid unbind / re-bind of the story's externals
+    pub binds: u32,
     pub max_ops: usize,
 }
 
@@ -66,6 +68,7 @@ impl Default for HistProfile {
             set_var: 0,
             eval: 0,
             observe: 0,
+            binds: 0,
             max_ops: 14,
         }
     }
@@ -85,6 +88,7 @@ impl HistProfile {
             set_var: 4,
             eval: 4,
             observe: 4,
+            binds: 0,
             max_ops: 16,
         }
     }
@@ -117,6 +121,7 @@ pub fn decode_history(tape: &[u16], meta: &Meta, hp: &HistProfile) -> Vec<HostOp
         hp.set_var,
         hp.eval,
         hp.observe,
+        hp.binds,
     ];
     let total: u32 = weights.iter().sum();
     let mut ops = vec![];
@@ -178,6 +183,18 @@ pub fn decode_history(tape: &[u16], meta: &Meta, hp: &HistProfile) -> Vec<HostOp
                     let nargs = t.pick(4);
                     let args = (0..nargs).map(|_| some_arg(&mut t)).collect();
                     HostOp::Eval { func: name, args }
+                }
+            }
+            11 => {
+                if meta.externals.is_empty() {
+                    HostOp::Continue
+                } else {
+                    let name = meta.externals[t.pick(meta.externals.len())].0.clone();
+                    if t.chance(2, 3) {
+                        HostOp::Unbind(name)
+                    } else {
+                        HostOp::Bind { name, safe: t.chance(1, 2) }
+                    }
                 }
             }
             _ => {
